@@ -234,7 +234,15 @@ impl<'tcx> Visitor<'tcx> for BodyFacts<'tcx> {
                     _ => "other",
                 };
                 let l = loc(self.tcx, term.source_info.span);
-                self.asserts.push(format!("{{\"kind\":{},{}}}", esc(kind), loc_json(&l)));
+                // operand type of an arithmetic check: i64 is the type of PRQL integer literals (user values), usize a size
+                let opty = match &**msg {
+                    mir::AssertKind::Overflow(_, a, _) | mir::AssertKind::OverflowNeg(a) => {
+                        let body = self.tcx.optimized_mir(self.owner);
+                        format!("{}", a.ty(&body.local_decls, self.tcx))
+                    }
+                    _ => String::new(),
+                };
+                self.asserts.push(format!("{{\"kind\":{},\"ty\":{},{}}}", esc(kind), esc(&opty), loc_json(&l)));
             }
             _ => {}
         }
